@@ -80,7 +80,7 @@ class Problem:
         self.n_lik_rows = 0
         me = self
 
-        def log_likelihood(samples):
+        def log_likelihood(samples, map_fn=None):  # (map_fn: accepted so that Aspire.enable_pool can be used with these callables)
             x = samples.x
             lp_att = samples.log_prior
             rec = {"x": env.to_np(x).astype(np.float64).copy(), "n": int(x.shape[0]) if x.ndim > 1 else 1,
@@ -92,7 +92,7 @@ class Problem:
                 raise InjectedFault(f"likelihood call {idx}")
             return me.L(x)
 
-        def log_prior(samples):
+        def log_prior(samples, map_fn=None):
             idx = len(me.prior_calls)
             me.prior_calls.append(int(samples.x.shape[0]))
             if me.fault_at is not None and isinstance(me.fault_at, tuple) and me.fault_at == ("prior", idx):
